@@ -690,6 +690,9 @@ def run_c17(case):
 
 
 def run_c04(case):     # (C04 and C05: recorder histories and racing-threads cases)
+    if case.get("kind") == "probe":
+        import c04_probes
+        return c04_probes.run_probe(case)
     if case.get("kind") == "race":
         import race_driver
         return race_driver.run_race(case)
